@@ -53,6 +53,35 @@ class UnknownToReceiver(Exception):
     pass
 
 
+class SlotsUnassigned(object):
+    __slots__ = ("a", "b")
+
+    def __init__(self):
+        self.a = 1          # slot b stays unassigned: getattr raises AttributeError while the object is converted
+
+
+class GetstateRaises(object):
+    def __init__(self, exc):
+        self.exc = exc
+
+    def __getstate__(self):
+        raise self.exc("getstate failed")
+
+
+class ReprRaises(object):
+    __slots__ = ()
+
+    def __repr__(self):
+        raise ZeroDivisionError("repr failed")
+
+
+def deep_list(n):
+    v = []
+    for _ in range(n):
+        v = [v]
+    return v
+
+
 class Armed:
     def __init__(self):
         self.spec = None
@@ -71,6 +100,18 @@ def make_service(P, registry):
             ex.custom_bad = threading.Lock()
         elif armed.extra == "unserialisable-arg":
             ex.args = ex.args + (object(),)
+        elif armed.extra == "unserialisable-slots":
+            ex.custom_bad = SlotsUnassigned()
+        elif armed.extra == "unserialisable-getstate-runtimeerror":
+            ex.custom_bad = GetstateRaises(RuntimeError)
+        elif armed.extra == "unserialisable-getstate-keyerror":
+            ex.custom_bad = GetstateRaises(KeyError)
+        elif armed.extra == "unserialisable-getstate-oserror":
+            ex.custom_bad = GetstateRaises(OSError)
+        elif armed.extra == "unserialisable-repr-raises":
+            ex.custom_bad = ReprRaises()
+        elif armed.extra == "unserialisable-deep-nesting":
+            ex.custom_bad = deep_list(6000)
         return ex
 
     class RaisingIter(object):
@@ -353,7 +394,8 @@ def run_shard(shard, rec):
                             continue
                         tokn[0] += 1
                         check_case(fx, p, armed, cls, clsname, args, attrs, sername, kind, rec, "tok%d" % tokn[0])
-        for extra in ("unserialisable-object", "unserialisable-lock", "unserialisable-arg"):
+        for extra in ("unserialisable-object", "unserialisable-lock", "unserialisable-arg", "unserialisable-slots", "unserialisable-getstate-runtimeerror",
+                      "unserialisable-getstate-keyerror", "unserialisable-getstate-oserror", "unserialisable-repr-raises", "unserialisable-deep-nesting"):
             for clsname in ("builtins.ValueError", "builtins.KeyError", "Pyro5.errors.NamingError", "builtins.OSError"):
                 tokn[0] += 1
                 check_unserialisable(fx, p, sername, extra, clsname, rec, "tok%d" % tokn[0], registry)
